@@ -2504,12 +2504,13 @@ class Trimesh(Geometry3D):
         if has_rotation and "vertex_normals" in self._cache:
             self._cache.cache["vertex_normals"] = util.unitize(
                 transformations.transform_points(
-                    self.vertex_normals, matrix=matrix, translate=False
+                    self.vertex_normals, matrix=normal_matrix, translate=False
                 )
             )
 
         # if transformation flips winding of triangles
-        if has_rotation and transformations.flips_winding(matrix):
+        flipped = has_rotation and transformations.flips_winding(matrix)
+        if flipped:
             log.debug("transform flips winding")
             # fliplr will make array non C contiguous
             # which will cause hashes to be more
@@ -2521,25 +2522,38 @@ class Trimesh(Geometry3D):
 
         # preserve normals and topology in cache
         # while dumping everything else
-        self._cache.clear(
-            exclude={
-                "face_normals",  # transformed by us
-                "vertex_normals",  # also transformed by us
-                "face_adjacency",  # topological
-                "face_adjacency_edges",
-                "face_adjacency_unshared",
-                "edges",
-                "edges_face",
-                "edges_sorted",
-                "edges_unique",
-                "edges_unique_idx",
-                "edges_unique_inverse",
-                "edges_sparse",
-                "body_count",
-                "faces_unique_edges",
-                "euler_number",
-            }
-        )
+        exclude = {
+            "face_normals",  # transformed by us
+            "vertex_normals",  # also transformed by us
+            "face_adjacency",  # topological
+            "face_adjacency_edges",
+            "face_adjacency_unshared",
+            "edges",
+            "edges_face",
+            "edges_sorted",
+            "edges_unique",
+            "edges_unique_idx",
+            "edges_unique_inverse",
+            "edges_sparse",
+            "body_count",
+            "faces_unique_edges",
+            "euler_number",
+        }
+        if flipped:
+            # reversing the faces reorders the edges of every face
+            # so drop the values that depend on that order
+            exclude.difference_update(
+                {
+                    "edges",
+                    "edges_sorted",
+                    "edges_unique",
+                    "edges_unique_idx",
+                    "edges_unique_inverse",
+                    "edges_sparse",
+                    "faces_unique_edges",
+                }
+            )
+        self._cache.clear(exclude=exclude)
         # set the cache ID with the current hash value
         self._cache.id_set()
         return self
